@@ -141,7 +141,10 @@ func execMinter(x *Exec, toks []string) string {
 			return "."
 		}
 		m := &mintertypes.Minter{SequenceId: uint32(int64Tok(toks[1]))}
-		if toks[2] != "-" {
+		if toks[2] == "zero" {
+			t := time.Time{} // an end time that is set, but to Go's zero time
+			m.EndTime = &t
+		} else if toks[2] != "-" {
 			t := timeOf(int64Tok(toks[2]))
 			m.EndTime = &t
 		}
@@ -658,6 +661,54 @@ func genMinterUpd(g *Gen, n int) {
 			g.emit("m.block %d", now)
 			g.emit("m.infl %d", now)
 			g.count("update/zero-start-time")
+		}
+		if (s+g.shape)%3 == 2 && s%2 == 0 {
+			// directed shape: a valid list submitted NOT in ascending sequence-id order (validation sorts it
+			// before it is stored), then blocks up to, exactly on and beyond each period end with the
+			// inflation query in every period
+			q := periods[0].seq
+			e1, e2 := now+1000*sec, now+2000*sec
+			g.emit("m.cfg umint %d", start)
+			second := fmt.Sprintf("m.period %d %d %s", q+1, e2, g.pick("exp 1000000 100000000000 500000000000000000", "lin 2000000", "exp 360000 60000000000 1000000000000000000"))
+			first := fmt.Sprintf("m.period %d %d lin %s", q, e1, g.pick("500000", "1000000000"))
+			third := fmt.Sprintf("m.period %d - %s", q+2, g.pick("none", "exp 1000 1000000000 900000000000000000"))
+			switch g.intn(3) {
+			case 0:
+				g.emit(second); g.emit(first); g.emit(third)
+			case 1:
+				g.emit(third); g.emit(second); g.emit(first)
+			default:
+				g.emit(first); g.emit(third); g.emit(second)
+			}
+			g.emit("m.update %s gov", g.pick("full", "minters"))
+			g.emit("m.params")
+			g.emit("m.fund 1000000")
+			for _, t := range []int64{now + 500*sec, e1, e1 + 250*sec, e1 + 500*sec + 7, e2, e2 + 100*sec} {
+				g.emit("m.block %d", t)
+				g.emit("m.infl %d", t)
+			}
+			now = e2 + 100*sec
+			g.count("update/unsorted-minters")
+		}
+		if (s+g.shape)%3 == 2 && s%2 == 1 {
+			// directed shape: the last period carries an end time that is SET to Go's zero time (what a JSON
+			// client sends for an omitted field): not "no end time" — must be rejected like any other end time
+			q := periods[0].seq
+			g.emit("m.cfg umint %d", start)
+			if g.chance(0.5) {
+				g.emit("m.period %d %d none", q, now+1000*sec)
+				q++
+			}
+			g.emit("m.period %d zero %s", q, g.pick("none", "exp 1000000 1000000000 500000000000000000"))
+			g.emit("m.update %s gov", g.pick("full", "minters"))
+			g.emit("m.params")
+			g.emit("m.fund 1000000")
+			for _, t := range []int64{now + 10*sec, now + 1000*sec, now + 1500*sec} {
+				g.emit("m.block %d", t)
+				g.emit("m.infl %d", t)
+			}
+			now += 1500 * sec
+			g.count("update/zero-end-time")
 		}
 		for i := 0; i < 4+g.intn(10); i++ {
 			switch g.intn(3) {
